@@ -58,6 +58,42 @@ def _number_truthiness(fi):
     return out
 
 
+def derived_atom_lists(fn: ast.AST) -> dict:
+    """Locals that hold the atoms of one residue in file order: bound to `<x>.atoms`, or to a comprehension / filter / list /
+    tuple / slice / reversed of such a sequence whose members are still the atoms (sorting by a key makes a position canonical
+    and ends the derivation)."""
+    derived: dict = {}
+
+    def is_src(e: ast.AST) -> bool:
+        if isinstance(e, ast.Attribute) and e.attr == "atoms":
+            return True
+        if isinstance(e, ast.Name) and (e.id in derived or e.id == "residue_atoms"):
+            return True
+        if isinstance(e, (ast.ListComp, ast.GeneratorExp)) and len(e.generators) == 1 and isinstance(e.generators[0].target, ast.Name) and isinstance(e.elt, ast.Name) and e.elt.id == e.generators[0].target.id:
+            return is_src(e.generators[0].iter)
+        if isinstance(e, ast.Call) and isinstance(e.func, ast.Name) and e.func.id in ("list", "tuple", "filter", "reversed") and e.args and not e.keywords:
+            return is_src(e.args[-1])
+        if isinstance(e, ast.Subscript) and isinstance(e.slice, ast.Slice):
+            return is_src(e.value)
+        return False
+
+    for _ in range(4):
+        n0 = len(derived)
+        for n in astq.walk_no_nested(fn):
+            if isinstance(n, (ast.Assign, ast.AnnAssign)) and n.value is not None:
+                t = n.targets[0] if isinstance(n, ast.Assign) else n.target
+                if isinstance(t, ast.Name) and t.id not in derived and t.id != "residue_atoms" and is_src(n.value) and not (isinstance(n.value, ast.Attribute)):
+                    derived[t.id] = n.value
+        if len(derived) == n0:
+            break
+    # a name that is also bound to something else is not reliably such a list
+    for name in list(derived):
+        others = [v for s, v in astq.assignments(fn, name) if v is not derived[name]]
+        if others:
+            del derived[name]
+    return derived
+
+
 def run(chk) -> None:
     repo = chk.repo
     chk.robust |= {"invariance-typing", "invariance-kinds", "positional-atom", "identity-arithmetic", "identity-order", "identity-truthiness", "memo-key", "same-residue-identity", "pdb-record-filter"}
@@ -133,7 +169,32 @@ def run(chk) -> None:
                         f"`{norm(p) if isinstance(p, ast.Attribute) else norm(n)}` picks an atom by its position in the residue: the result changes when atoms are listed in another order",
                         K(fi, f"positional:{norm(n)}"),
                     )
-    chk.ok("positional-atom", "annotation path", f"{len(reach)} reachable functions scanned, {n_pos} positional accesses to atom sequences")
+    # lists derived from the atoms of one residue (comprehension, filter, list/tuple, slice, reversed - anything that keeps the file order):
+    # picking a member by its position in such a list is picking an atom by its position in the file
+    n_der = 0
+    for m, q in sorted(reach):
+        fi = repo.modules[m].funcs[q]
+        derived = derived_atom_lists(fi.node)
+        if not derived:
+            continue
+        par = astq.parents(fi.node)
+        for n in ast.walk(fi.node):
+            if isinstance(n, ast.Subscript) and not isinstance(n.slice, ast.Slice) and isinstance(n.value, ast.Name) and n.value.id in derived:
+                free = {x.id for x in ast.walk(n.slice) if isinstance(x, ast.Name)} - {n.value.id, "len"}
+                if free:
+                    continue  # indexed by something else (a loop counter, a name look-up): not a fixed position
+                n_der += 1
+                p = par.get(id(n))
+                ok = isinstance(p, ast.Attribute) and p.attr in CONSTANT_FIELDS
+                chk.expect(
+                    ok,
+                    "positional-atom",
+                    fi.site(n),
+                    f"`{norm(p) if p is not None else norm(n)}` reads a field that is the same for every atom of the residue",
+                    f"`{norm(n)}` picks an atom by its position in `{n.value.id}`, a list that keeps the order in which the atoms of the residue are listed (`{n.value.id} = {norm(derived[n.value.id])[:70]}`): the result changes when atoms are listed in another order",
+                    K(fi, f"positional:{norm(n)}"),
+                )
+    chk.ok("positional-atom", "annotation path", f"{len(reach)} reachable functions scanned, {n_pos} positional accesses to atom sequences, {n_der} to lists derived from them")
 
     # ---- residue numbers never in arithmetic -------------------------------------------------------------
     n_arith = 0
@@ -174,6 +235,9 @@ def run(chk) -> None:
         fields = [x.attr for x in ast.walk(rets[0]) if isinstance(x, ast.Attribute)] if rets else []
         ok = len(rets) == 1 and isinstance(rets[0].value, ast.Compare) and set(fields) <= {"model", "chain", "number", "icode"} and {"chain", "number", "icode"} <= set(fields)
         chk.expect(ok, "identity-order", fi.where, f"{cls} order compares (chain, number, icode) (and model) lexicographically", f"{cls}.__lt__ does not compare exactly (model,) chain, number, icode", K(fi, "lt"), found=sorted(set(fields)))
+    from checks import c11e
+
+    c11e.check_order_keys(chk, rule="identity-order")
     # ---- residue number / insertion code are optional values whose 0 / "" are legitimate: presence is tested with `is None`
     for m, cls in (("common", "Residue"), ("tertiary", "Residue3D"), ("common", "ResidueAuth"), ("common", "ResidueLabel")):
         for q, fi in sorted(repo.modules[m].funcs.items()):
